@@ -19,4 +19,8 @@ TEXT = {
     level='Proved from the real source: _invert_perm inverts every permutation (incl. python-negative entries); scan_in_dim transpose_in/out hand mutually inverse permutations to transpose; prefetch_to_device yields exactly put(src[i]) for every remaining source item, in order, once, then stops (generator with ghost output trace, two loop invariants, for every size >= 1); PrefetchIterator.__next__ delivers the buffer HEAD whenever the buffer is non-empty and reports the stored error / StopIteration only on an empty buffer, the producer only appends the item just taken at the tail or stores the error while clearing _active, close only clears _active -- each critical section verified under the monitor rule (protected state havocked at every acquisition), plus a structural lock-discipline obligation over the class body.',
     note='Trusted: VC generator semantics; Condition-as-monitor and Thread.start-as-publication; summaries of islice/deque/np.delete/np.arange/tree_map; solvers. Interleaving coverage is by the monitor rule (paper composition), not by enumeration. Not decided: pad_shard_unpad numerics, scan_in_dim vs nested loop, jnp one-liners.',
     technique='contract-based deductive verification (own VC generator over the real AST + z3/cvc5), monitor invariants for the threaded class'),
+  'C10': dict(
+    level='Proved from the real source, for every length / key set: _tuple_to_dict and _dict_to_tuple are inverse and _dict_to_tuple reads entries by key str(i) (never by order); _list_state_dict/_restore_list, _dict_state_dict/_restore_dict, _namedtuple_state_dict/_restore_namedtuple store and restore each entry under its key / field name with the recursive calls as uninterpreted functions, and raise ValueError exactly on a length mismatch, a missing target key, or differing namedtuple field names (iff contracts).',
+    note='Trusted: VC generator semantics; recursive to/from_state_dict as uninterpreted functions; str(int) injective; summaries of dict comprehension order and namedtuple construction; solvers. Not decided: byte-level array encoding, dtype/layout, msgpack ext types. Native evaluation of the same contracts on small inputs is bounded, not proof.',
+    technique='contract-based deductive verification (own VC generator over the real AST + z3/cvc5)'),
 }
